@@ -393,3 +393,10 @@ mod tests {
         assert_eq!(set.peek_min().unwrap(), 0..4);
     }
 }
+
+#[cfg(feature = "__verif-hooks")]
+#[allow(missing_docs, unreachable_pub, dead_code, unused_imports, unused_qualifications)]
+pub mod verif {
+    use super::*;
+    include!(concat!(env!("QUINN_VERIF_HOOKS"), "/proto/range_set/btree_range_set.rs"));
+}
